@@ -12,7 +12,7 @@ RULE = ("cases: (planar graph with one-way streets / dead ends / self-listed nei
 ASSUMPTIONS = ["planar metric, InMemMap; graphs <= 12 nodes, traces <= 12 points", "continue_with_distance (the jump operation) is not used",
                "the nodes-only view is required only on maps without linked edges"]
 TOLERANCES = {}
-BUDGET = {"quick": {"shards": 8, "examples": 700}, "thorough": {"shards": 16, "examples": 12000}}
+BUDGET = {"quick": {"shards": 8, "examples": 1200}, "thorough": {"shards": 16, "examples": 12000}}
 FUZZ = {"thorough": {"runs": 15000, "seed_inputs": 16, "max_len": 4096,
                      "include": ("leuvenmapmatching.matcher", "leuvenmapmatching.util", "leuvenmapmatching.map")}}
 
